@@ -5,7 +5,11 @@
    refine the observable specification spec/Onion.tla for every enumerated route (path lengths 1..27,
    byte-length classes of every leg's amount and expiry, recipient-field sizes including the ones that
    fill hop_data exactly / one byte less / one byte more, blinded tails) and every corruption field x
-   position, failing hop x code class x data length, and fulfil.  Size arithmetic (sum of payloads +
+   position, failing hop x failure form, and fulfil.  A failure form is a code class with arbitrary
+   data, or a BOLT 4 message with data: code x magnitudes of its fixed fields (expiries / heights
+   around multiples of 2^16, amounts with high bytes set, flags) x channel_update length x
+   well-formed / truncated / overrunning / trailing.  What the sender must conclude (node or channel
+   blamed, which channel, permanent or not) is part of Onion.tla.  Size arithmetic (sum of payloads +
    hmacs <= 1300) is part of the model, so TLC decides which routes fit.
 2. Every terminal state of the model is printed as a driver script; the Rust engine `onion` runs the
    scripts (several seeds each) and seeded random scripts against the real create_payment_onion /
@@ -37,7 +41,8 @@ def shape(s):
     return (s["n"], s["b"], tuple((l["a"], l["c"]) for l in s["legs"]), (s["fin"]["a"], s["fin"]["c"]),
             s["final"]["secret"], s["final"]["tlen"], s["final"]["meta"],
             tuple((c["tl"], c["len"]) for c in s["final"]["customs"]), s["final"]["keysend"],
-            s["op"]["kind"], s["op"]["at"], s["op"]["field"], s["op"]["code"], s["op"]["dlen"])
+            s["op"]["kind"], s["op"]["at"], s["op"]["field"], s["op"]["code"], s["op"]["dlen"],
+            s["op"].get("codeval", -1), tuple(s["op"].get("head", [])), s["op"].get("tail", 0))
 
 
 def sample_scripts(scripts, cap, rng):
@@ -47,8 +52,10 @@ def sample_scripts(scripts, cap, rng):
     strata = collections.defaultdict(list)
     for s in scripts:
         o = s["op"]
-        strata[(o["kind"], o["field"], o["code"], s["n"], s["b"] > 0)].append(s)
+        strata[(o["kind"], o["field"], o["code"], o.get("codeval", -1), tuple(o.get("head", [])),
+                o.get("tail", 0), s["n"], s["b"] > 0)].append(s)
     keys = sorted(strata.keys(), key=str)
+    rng.shuffle(keys)   # more strata than the cap: no stratum is favoured
     for k in keys:
         rng.shuffle(strata[k])
     out = []
@@ -152,6 +159,31 @@ def selftest(wd, lines):
             m = clone(); m[k]["code"] ^= 1; muts.append(("code-changed", m))
             m = clone(); m[k]["hold_times"][0] += 1; muts.append(("hold-time-value", m))
             break
+    # (g2) what the sender concludes: blamed channel / kind of update / permanence
+    for k, r in enumerate(recs):
+        if r["ev"] == "attr" and recs[k - 1]["ev"] in ("fail", "wrap") and r["nu_kind"] == "channel" \
+                and not r["nu_perm"] and r["nu_chan"] >= 2 and r["chan"] == r["nu_chan"]:
+            # UPDATE failure of an intermediate hop: the channel after it is blamed, temporarily
+            m = clone(); m[k]["nu_chan"] -= 1; m[k]["chan"] -= 1
+            muts.append(("blamed-channel-swapped-for-inbound", m))
+            m = clone(); m[k]["chan"] -= 1; muts.append(("retry-scid-swapped-for-inbound", m))
+            m = clone(); m[k]["nu_perm"] = True; muts.append(("temporary-channel-failure-made-permanent", m))
+            m = clone(); m[k].update({"nu_kind": "node", "nu_node": r["nu_chan"] - 1, "nu_chan": 0, "nu_perm": True,
+                                      "chan": r["nu_chan"] - 1})
+            muts.append(("channel-failure-turned-node-failure", m))
+            break
+    for k, r in enumerate(recs):
+        if r["ev"] == "attr" and r["nu_kind"] == "channel" and r["nu_perm"] and not r["perm"]:
+            m = clone(); m[k]["nu_perm"] = False; muts.append(("permanent-channel-failure-made-temporary", m))
+            break
+    for k, r in enumerate(recs):
+        if r["ev"] == "attr" and r["nu_kind"] == "node" and (r["code"] & 0x2000):
+            m = clone(); m[k]["nu_perm"] = not r["nu_perm"]; muts.append(("node-failure-permanence-flipped", m))
+            break
+    for k, r in enumerate(recs):
+        if r["ev"] == "attr" and r["perm"]:
+            m = clone(); m[k]["perm"] = False; muts.append(("recipient-permanent-failure-not-final", m))
+            break
     # (h) a route that fits is refused
     for k, r in enumerate(recs):
         if r["ev"] == "build" and r["ok"] and recs[k + 1]["ev"] == "peel":
@@ -179,7 +211,7 @@ def selftest(wd, lines):
         res = list(ex.map(one, muts))
     rejected = sum(1 for _, ok in res if ok)
     names = [n for n, ok in res if not ok]
-    if rejected != len(muts) or len(muts) < 8:
+    if rejected != len(muts) or len(muts) < 19:
         raise vlib.ToolError("binding self-test: %d of %d corrupted traces rejected (accepted: %s)"
                              % (rejected, len(muts), names))
     return {"mutations": len(muts), "rejected": rejected}
@@ -234,7 +266,7 @@ def run(tier, seed):
         if kinds[k] == 0:
             raise vlib.ToolError("vacuity: no %s script" % k)
     nscripts_total = len(scripts)
-    cap = 60000 if thorough else 7000
+    cap = 60000 if thorough else 10000
     scripts = sample_scripts(scripts, cap, rng)
     spath = os.path.join(wd, "scripts.ndjson")
     with open(spath, "w") as f:
@@ -291,6 +323,27 @@ def run(tier, seed):
             raise vlib.ToolError("vacuity: packets hardly travel (%d peels for %d onions)"
                                  % (summ["peels"], summ["builds_ok"]))
 
+        # every kind of conclusion of the sender occurred, and the data-carrying messages were decoded
+        concl = collections.Counter()
+        with_data = collections.Counter()
+        with open(tpath) as f:
+            prev_fail = None
+            for ln in f:
+                if '"ev":"fail"' in ln:
+                    prev_fail = json.loads(ln)
+                elif '"ev":"attr"' in ln:
+                    a = json.loads(ln)
+                    concl["%s/%s" % (a["nu_kind"], "perm" if a["nu_perm"] else "temp")] += 1
+                    if prev_fail is not None and prev_fail["dlen"] > 0 and a["code"] in (
+                            0x1007, 0x100b, 0x100c, 0x100d, 0x100e, 0x1014, 0x400f, 18, 19):
+                        with_data[a["code"]] += 1
+        for k in ("node/perm", "node/temp", "channel/perm", "channel/temp", "none/temp"):
+            if concl[k] == 0:
+                raise vlib.ToolError("vacuity: the sender never concluded %s (%s)" % (k, dict(concl)))
+        for c in (0x1007, 0x100b, 0x100c, 0x100d, 0x100e, 0x1014, 0x400f, 18, 19):
+            if with_data[c] < 3:
+                raise vlib.ToolError("vacuity: failure code %#x with data decoded only %d times" % (c, with_data[c]))
+
     # ---- 4. binding self-test on the head of the accepted trace
     st = None
     if not fails:
@@ -305,14 +358,27 @@ def run(tier, seed):
                     if len(runs) >= 12000:
                         break
                 cur.append(ln.rstrip("\n"))
-        want = {"deliver": 4, "corrupt": 6, "fail": 8, "fulfill": 4}
+        want = {"deliver": 4, "corrupt": 6, "fulfill": 4, "fail_node": 6, "fail_update": 4, "fail_perm": 3,
+                "fail_final": 3}
         head = []
         for run_lines in runs:
             sc = json.loads(run_lines[0])["script"]
             k = sc["op"]["kind"]
-            if want.get(k, 0) > 0 and sc["n"] >= 3 and sc["b"] == 0 and len(run_lines) > 3 \
-                    and (k != "corrupt" or sc["op"]["at"] < sc["n"]) \
-                    and (k != "fail" or (sc["op"]["at"] >= 2 and sc["op"]["code"] in ("node_temp", "node_perm"))):
+            if sc["n"] < 3 or sc["b"] != 0 or len(run_lines) <= 3:
+                continue
+            if k == "fail":
+                at, code, n = sc["op"]["at"], sc["op"]["code"], sc["n"]
+                if code in ("node_temp", "node_perm") and at >= 2:
+                    k = "fail_node"
+                elif code == "update" and 2 <= at < n:
+                    k = "fail_update"
+                elif code == "perm" and 2 <= at < n:
+                    k = "fail_perm"
+                elif code in ("recipient", "node_perm", "perm") and at == n:
+                    k = "fail_final"
+                else:
+                    continue
+            if want.get(k, 0) > 0 and (k != "corrupt" or sc["op"]["at"] < sc["n"]):
                 want[k] -= 1
                 head += run_lines
         st = selftest(wd, head)
@@ -329,11 +395,14 @@ def run(tier, seed):
             if len(hd) >= 8:
                 break
         samples.append({"trace_head": hd})
+    if fails:
+        concl, with_data = collections.Counter(), collections.Counter()
     cov = {
         "evaluations": summ["evaluations"],
         "distinct_nontrivial": vlib.distinct_count(executed),
         "rule": "distinct (path length, blinded hops, per-leg amount/expiry byte-length classes, recipient field "
-                "sizes, operation kind, corruption field+position or failing hop+code class+data length) among the "
+                "sizes, operation kind, corruption field+position or failing hop+failure form: code class+data "
+                "length, or exact code+fixed-field bytes+channel_update length) among the "
                 "runs in which an onion build was attempted; an evaluation is one call of create_payment_onion, "
                 "peel_payment_onion, build/wrap/decode of a failure packet or fulfil attribution step",
         "samples": samples,
@@ -345,12 +414,19 @@ def run(tier, seed):
         "onions_built": summ["builds_ok"], "routes_refused_too_large": summ["builds_err"],
         "peels": summ["peels"], "corruptions": summ["corrupts"], "failures": summ["fails"],
         "fulfils": summ["fulfills"], "impl_panics": summ["panics"], "binding_selftest": st,
+        "sender_conclusions": dict(concl),
+        "failures_with_bolt4_data_by_code": {("%#x" % c): v for c, v in sorted(with_data.items())},
         "exhaustive": False,
     }
     vlib.write_evidence(PID, tier, seed, "exploration", cov, [
         "cryptography is exercised, not modelled: the model fixes shapes, sizes and verdicts",
         "failure attribution is checked for codes without the BADONION bit on routes without blinded hops; "
-        "naming hop k means blaming node k or a channel adjacent to it, hold times must cover hops 1..min(k,20)",
+        "hold times must cover hops 1..min(k,20); the sender's conclusion is fixed for a forwarding hop k: NODE "
+        "-> NodeFailure(k), permanent iff PERM; PERM -> ChannelFailure(channel k -> k+1), permanent; UPDATE with "
+        "a well-formed BOLT 4 message (fixed fields + u16 len + exactly len bytes) -> that channel, not permanent, "
+        "and it is the channel to avoid on retry; payment_failed_permanently iff final hop and PERM; elsewhere "
+        "(final hop, malformed / unknown UPDATE data, codes without class bits) naming hop k means blaming node k "
+        "or a channel adjacent to it",
         "failure packets are originated through onion_utils::build_failure_packet with arbitrary code/data (as a "
         "remote hop could) and re-wrapped through HTLCFailReason::get_encrypted_failure_packet",
         "field values and flipped bits are seeded samples; byte-length classes, sizes and positions are enumerated",
